@@ -422,3 +422,14 @@ def r11(ctx):
         wrong = [n for n in names if got.get(n) != Sym(n)]
         ctx.check(not wrong and len(names) >= 8, fi, f"every solver setting is the entry point's parameter of the same name ({len(names)} fields)",
                   role="entry:plumbing", expected=", ".join(f"{n}={n}" for n in names), found=", ".join(f"{n}={got.get(n)}" for n in wrong)[:160])
+        # ... and the bundle keeps what it is given: no method of the container (a __post_init__, a setter) re-assigns a field
+        edits = [(m_, n) for m_ in cls.methods.values() if m_.name != "__init__" for n in Resolver.walk_own(m_.node)
+                 if (isinstance(n, ast.Attribute) and isinstance(n.ctx, ast.Store) and isinstance(n.value, ast.Name) and n.value.id == "self" and n.attr in cls.fields)
+                 or (isinstance(n, ast.Call) and isinstance(n.func, ast.Name) and n.func.id == "setattr" and n.args and isinstance(n.args[0], ast.Name) and n.args[0].id == "self")]
+        saved_, ctx.evidence = ctx.evidence, True
+        try:
+            for m_, n in edits:
+                ctx.fail(m_, f"ADMMArguments.{m_.name} re-assigns a field (`{unparse(n, 50)}`): the solver no longer works with the value the entry point was given",
+                         line=n.lineno, role=f"entry:plumbing:container:{m_.name}", expected="fields keep the constructor's values", found=unparse(n, 60))
+        finally:
+            ctx.evidence = saved_
